@@ -16,12 +16,12 @@ QUICK = {
     'basic': ['plain', 'required', 'defaults', 'addition', 'params', 'policy'],
     'alias': ['plain', 'alias', 'addition'],
     'case': ['plain', 'alias', 'required'],
-    'io': ['plain', 'mode', 'defaults', 'required'],
+    'io': ['plain', 'mode', 'defaults', 'required', 'alias'],
     'mode': ['mode', 'required'],
     'deps': ['plain', 'required', 'alias'],
     'onerr': ['plain', 'policy', 'required', 'defaults'],
     'defer': ['plain', 'defaults', 'required'],
-    'depio': ['plain', 'required'],
+    'depio': ['plain', 'required', 'alias'],
     'aliasgen': ['plain', 'addition'],
     'mix': [g for g in GROUPS if g != 'params'],
 }
@@ -91,13 +91,16 @@ def sym_items(V, spec_id, limit=None, strs=True):
     return items
 
 
-def limit_for(V, spec_id, group):
+def limit_for(V, spec_id, group, wide_alias=False):
+    if wide_alias and group == 'alias' and spec_id in ('io', 'depio'):
+        # room for a second letter case of the no-input fields
+        return V.T(7, 8)
     return V.T(5 if spec_id == 'onerr' or group != 'plain' else 6, 7 if group != 'plain' else 8)
 
 
 def bounds_text(spec, group, base):
     return ('declaration %r (fields %s) as a %s; input = solver-chosen subset (and order: as listed or reversed) of the key '
             'vocabulary [accepted spellings, case variants, one unknown key; 6 keys quick (5 with an option group or for '
-            'onerr), 8 thorough (7 with an option group)] with unbounded symbolic int values and at most one key (first or last present) carrying '
+            'onerr; 7 for io / depio with the alias group in C06), 8 thorough (7 with an option group)] with unbounded symbolic int values and at most one key (first or last present) carrying '
             '"x" (invalid) or "5" (convertible); class-level option group %r symbolic: %s' % (
                 spec, ', '.join(f['name'] for f in dcspec.SPECS[spec]), base, group, GROUPS[group] or 'none'))
